@@ -97,9 +97,9 @@ uint8_t *G_file;                 /* model file contents (heap object of G_file_s
 size_t G_file_size;
 _Bool G_pos_valid;               /* cursor defined (a failed fseek leaves it undefined) */
 size_t G_pos;
-/* ghost record of the LAST fread that was asked for more than CQV_FREAD_EXACT bytes (the footer) */
-size_t G_big_read_pos, G_big_read_len;
-unsigned G_big_reads;
+/* ghost record of the first two fread calls: cursor, requested and delivered byte counts */
+size_t G_read_pos[2], G_read_req[2], G_read_got[2];
+unsigned G_fread_calls;
 
 int fseek(FILE *f, long off, int whence) {
   __CPROVER_precondition(f == G_stream && G_stream_open, "fseek: stream is open");
@@ -132,11 +132,10 @@ size_t fread(void *ptr, size_t size, size_t n, FILE *f) {
   size_t avail = G_pos <= G_file_size ? G_file_size - G_pos : 0;
   size_t r = nondet_size_t();
   __CPROVER_assume(r <= n && r <= avail);          /* any short read; never past end of file */
+  if (G_fread_calls < 2) { G_read_pos[G_fread_calls] = G_pos; G_read_req[G_fread_calls] = n; G_read_got[G_fread_calls] = r; }
+  G_fread_calls++;
   if (n > CQV_FREAD_EXACT) {
-    G_big_reads++;
-    G_big_read_pos = G_pos;
-    G_big_read_len = r;
-    if (n != 0) __CPROVER_havoc_slice(ptr, n);
+    __CPROVER_havoc_slice(ptr, n);
   } else {
     for (size_t i = 0; i < CQV_FREAD_EXACT; i++)
       if (i < r) ((uint8_t *)ptr)[i] = G_file[G_pos + i];
@@ -147,6 +146,8 @@ size_t fread(void *ptr, size_t size, size_t n, FILE *f) {
 
 /* ---- printf family used by carquet_error_set ------------------------------- */
 unsigned G_vsnprintf_calls;
+char *G_msg_base;                /* destination of the last formatted message ... */
+size_t G_msg_nul;                /* ... and the index at which it was NUL-terminated */
 int vsnprintf(char *dst, size_t cap, const char *fmt, va_list ap) {
   (void)ap;
   __CPROVER_precondition(fmt != (const char *)0, "vsnprintf: format non-null");
@@ -157,6 +158,8 @@ int vsnprintf(char *dst, size_t cap, const char *fmt, va_list ap) {
     __CPROVER_assume(len < cap);
     __CPROVER_havoc_slice(dst, cap);
     dst[len] = 0;
+    G_msg_base = dst;
+    G_msg_nul = len;
   }
   return nondet_int();
 }
